@@ -474,6 +474,10 @@ class Reference:
 
     def lattice_chains(self, lid, P, depth):
         lc = self.cells[lid]
+        # a TRCL on the lattice cell moves the whole lattice (planes, translations and contents)
+        t_l = self.cell_trcl(lc)
+        if t_l is not None:
+            P = ref.aux_point(t_l, P)
         ranges, univs = self.lattice_spec(lc)
         vecs = self.lattice_vectors(lc)
         if len(ranges) < len(vecs):
@@ -501,8 +505,9 @@ class Reference:
             if u == (lc.u or 0):
                 out.append((('elem',), cell_reg, lc.mat, lc.rho))
                 continue
-            T = self.fill_tr(lc)
-            Q2 = ref.aux_point(T, Q) if T is not None else Q
+            if lc.filltr is not None:
+                raise ref.RefError('a lattice cell with its own FILL transformation is outside the reference')
+            Q2 = Q
             for fid in self.by_u.get(u, []):
                 if self.cells[fid].lat:
                     raise ref.RefError('nested lattices are outside the reference')
